@@ -53,10 +53,14 @@ fn stored_name(a: &str, n: &str) -> String {
     }
 }
 
-fn gen_bsd0_plan(old: &[u8], neg: bool, rng: &mut Rng) -> (Vec<Ctrl>, Vec<u8>, Vec<u8>) {
+fn gen_bsd0_plan(old: &[u8], cls: &str, rng: &mut Rng) -> (Vec<Ctrl>, Vec<u8>, Vec<u8>) {
+    let neg = cls == "bsd0neg";
+    // class bsd0lit: every diff byte non-zero and a long non-zero extra block, so that the RLE layer has to use
+    // maximal literal runs
+    let lit = cls == "bsd0lit";
     let l = old.len() as u32;
     let a1 = l / 2;
-    let m1 = 3 + rng.below(4) as u32;
+    let m1 = if lit { 100 + rng.below(100) as u32 } else { 3 + rng.below(4) as u32 };
     let (s1, a2): (i64, u32) = if neg {
         let back = 1 + rng.below((a1 - 1) as u64) as i64; // 1 ..= a1-1, old offset stays >= 1
         (-back, l / 4)
@@ -64,17 +68,19 @@ fn gen_bsd0_plan(old: &[u8], neg: bool, rng: &mut Rng) -> (Vec<Ctrl>, Vec<u8>, V
         let fwd = rng.below((l / 8 + 1) as u64) as i64;
         (fwd, l / 4)
     };
-    let m2 = 1 + rng.below(6) as u32;
+    let m2 = if lit { 60 + rng.below(100) as u32 } else { 1 + rng.below(6) as u32 };
     let ctrl = vec![Ctrl { add: a1, mov: m1, seek: s1 }, Ctrl { add: a2, mov: m2, seek: 0 }];
     let nd = (a1 + a2) as usize;
     let mut data = vec![0u8; nd];
     let one_in = if old.len() > 2000 { 64 } else { 4 }; // big files: sparse differences (packs well)
     for d in data.iter_mut() {
-        if rng.chance(1, one_in) {
+        if lit {
+            *d = 1 + rng.below(255) as u8;
+        } else if rng.chance(1, one_in) {
             *d = rng.byte();
         }
     }
-    let extra = rng.bytes((m1 + m2) as usize);
+    let extra = if lit { (0..m1 + m2).map(|_| 1 + rng.below(255) as u8).collect() } else { rng.bytes((m1 + m2) as usize) };
     (ctrl, data, extra)
 }
 
@@ -267,7 +273,10 @@ fn build_world(w: &Value, dir: &Path, seed: u64) -> World {
     // ids "Br.." / "Bt..": ~10 KB random / text (multi-sector in the archives with 4 KiB sectors)
     let plain = |id: &str| -> Vec<u8> {
         let mut r = Rng::derive(seed, &format!("c08-content-{id}"));
-        if id.starts_with("Br") {
+        if id == "E0" {
+            // the distinguished content of length zero (PatchChain!EmptyC)
+            Vec::new()
+        } else if id.starts_with("Br") {
             let len = 9000 + r.below(2500) as usize;
             r.bytes(len)
         } else if id.starts_with("Bt") {
@@ -336,8 +345,8 @@ fn build_world(w: &Value, dir: &Path, seed: u64) -> World {
                     }
                     p
                 }
-                "bsd0" | "bsd0neg" | "zerobsd0" => {
-                    let (ctrl, data, extra) = gen_bsd0_plan(&old, cls == "bsd0neg", &mut rng);
+                "bsd0" | "bsd0neg" | "bsd0lit" | "zerobsd0" => {
+                    let (ctrl, data, extra) = gen_bsd0_plan(&old, cls, &mut rng);
                     let (mut p, newc) = make_bsd0(&old, &ctrl, &data, &extra);
                     bytes.insert(after.clone(), newc);
                     if cls == "zerobsd0" {
@@ -540,7 +549,24 @@ fn sweep(w: &World, chain: &mut PatchChain) -> Value {
         Outcome::Panic(_) => ("panic".into(), vec![], vec![]),
         Outcome::Hang => ("hang".into(), vec![], vec![]),
     };
-    json!({"rd":rd[0],"rd2":rd[1],"rd3":rd[2],"has":has,"fnd":fnd,"lres":lres,"lst":lst,"lstx":lstx,"panics":panics})
+    // the batch entry point: one extract_files call over all names (canonical spelling), answers in request order
+    let canon: Vec<String> = w.names.iter().map(|n| spellings(&w.real[n])[0].clone()).collect();
+    let refs: Vec<&str> = canon.iter().map(|x| x.as_str()).collect();
+    let rdx: Vec<Value> = match guarded(|| chain.extract_files(&refs)) {
+        Outcome::Done(v) => (0..canon.len())
+            .map(|i| match v.get(i) {
+                Some((nm, r)) if *nm == canon[i] => match r {
+                    Ok(d) => json!(["ok", tok(d), ""]),
+                    Err(wow_mpq::Error::FileNotFound(m)) if !m.contains("No base file") => json!(["notfound", "", ""]),
+                    Err(e) => json!(["err", "", variant_name(e)]),
+                },
+                _ => json!(["missing", "", ""]),
+            })
+            .collect(),
+        Outcome::Panic(m) => canon.iter().map(|_| json!(["panic", "", m])).collect(),
+        Outcome::Hang => canon.iter().map(|_| json!(["hang", "", ""])).collect(),
+    };
+    json!({"rd":rd[0],"rd2":rd[1],"rd3":rd[2],"rdx":rdx,"has":has,"fnd":fnd,"lres":lres,"lst":lst,"lstx":lstx,"panics":panics})
 }
 
 fn list_arg(w: &World, dir: &Path, op: &Value) -> Vec<(PathBuf, i32)> {
@@ -597,7 +623,7 @@ fn op_event(w: &World, dir: &Path, chain: &mut PatchChain, case: &str, op: &Valu
     let sw = if do_sweep {
         sweep(w, chain)
     } else {
-        json!({"rd":[],"rd2":[],"rd3":[],"has":[],"fnd":[],"lres":"","lst":[],"lstx":[],"panics":[]})
+        json!({"rd":[],"rd2":[],"rd3":[],"rdx":[],"has":[],"fnd":[],"lres":"","lst":[],"lstx":[],"panics":[]})
     };
     json!({"ev":"Op","case":case,"op":gs(op,"op"),"a":gs(op,"a"),"p":gi(op,"p"),"l":op["l"],
            "res":res,"resv":resv,"count":n,"chain":ch,"sw":do_sweep,"obs":sw})
@@ -651,7 +677,31 @@ fn concretise_plan(c: &Value, rng: &mut Rng) -> (Vec<u8>, Vec<u8>, Vec<u8>) {
                 *d = 1 + rng.below(255) as u8;
             }
         }
-        let extra = rng.bytes(ne);
+        let mut extra = rng.bytes(ne);
+        // "runs" plans (RLE control-byte space): one block of the image is laid out as runs <<kind, length>>,
+        // kind 1 = non-zero bytes, 0 = zero bytes
+        let runs = c.get("runs").and_then(|x| x.as_array()).cloned().unwrap_or_default();
+        if !runs.is_empty() {
+            let mut block = Vec::new();
+            for r in &runs {
+                let r = r.as_array().unwrap_or_else(|| tool_error("plan.runs"));
+                let (k, n) = (r[0].as_i64().unwrap_or(0), r[1].as_i64().unwrap_or(0) as usize);
+                for _ in 0..n {
+                    block.push(if k == 0 { 0 } else { 1 + rng.below(255) as u8 });
+                }
+            }
+            if gs(c, "blk") == "data" {
+                if block.len() != nd {
+                    tool_error("plan.runs: block length differs from the add total");
+                }
+                data = block;
+            } else {
+                if block.len() != ne {
+                    tool_error("plan.runs: block length differs from the mov total");
+                }
+                extra = block;
+            }
+        }
         // encoder-level mutations (inside the RLE-packed bsdiff image): one control field or one
         // 64-bit header field replaced; digests and sizes stay those of the intended result
         let m = &c["mut"];
